@@ -142,6 +142,25 @@ impl Params {
         }
     }
 
+    /// Small unsatisfiable universes in which most dependency edges point backwards: the
+    /// conflicts contain dependency cycles, also cycles through candidates that have an
+    /// installable alternative.
+    pub fn cyclic() -> Self {
+        Params {
+            min_pkgs: 3,
+            max_pkgs: 7,
+            max_cands: 3,
+            max_reqs: 2,
+            p_forward: 350,
+            p_self_ref: 20,
+            p_union: 40,
+            vs_w: [6, 2, 3, 2, 0],
+            min_root_reqs: 1,
+            max_root_reqs: 3,
+            ..Params::conflict_heavy()
+        }
+    }
+
     /// Hundreds of packages with one or two candidates each and a root that requires most of
     /// them: more than 128 requests in flight at once, more than 256 solvables and ids on
     /// both sides of every chunk boundary of the solver's tables.
